@@ -275,6 +275,22 @@ theorem ear_clipping_cover_eq_winding (pts : Array (V2 K)) (out : Array (Nat × 
   rw [clipSeq_wind p (@pt K (fieldNum K sq) pts) hseq, toList_eq_map_pt sq pts, windingNumber_map]
   try simp
 
+/-- **an accepted polygon never winds negatively** (every input): on `Some(out)` the winding number of the input polygon
+around every point is `≥ 0` — it counts the emitted triangles containing the point.  So clockwise loops are never
+accepted, whatever else is wrong with the input. -/
+theorem ear_clipping_winding_nonneg (pts : Array (V2 K)) (out : Array (Nat × Nat × Nat)) (p : V2 K) :
+    letI := fieldNum K sq
+    triangulateEarClipping pts = some out → 0 ≤ windingNumber p pts.toList := by
+  intro h
+  obtain ⟨hsum, hpos⟩ := ear_clipping_cover_eq_winding sq pts out p h
+  rw [← hsum]
+  apply List.sum_nonneg
+  intro x hx
+  obtain ⟨t, ht, rfl⟩ := List.mem_map.mp hx
+  rcases (triWind_spec _ _ _ p (hpos t ht)).2.2 with h0 | h1
+  · rw [h0]
+  · rw [h1]; norm_num
+
 /-- two entries of a list of non-negative integers are together at most the sum -/
 private theorem two_le_sum (l : List Int) (hl : ∀ x ∈ l, 0 ≤ x) (i j : Nat) (hij : i < j) (hj : j < l.length) :
     l[i]'(by omega) + l[j] ≤ l.sum := by
